@@ -58,3 +58,13 @@ From TrV Require Import Proofs.Assemble.
 Theorem C01_full : C01_full_statement.
 Proof. exact C01_assembled. Qed.
 Print Assumptions C01_full.
+
+(* tie to the source: the model's reverse step and best-access selection are the control skeleton instantiated with
+   the guards tools/gen_guards.py translated from reverse_calculation.cpp AS IT IS NOW (gen/Guards.v) *)
+From TrV Require Import Proofs.GuardsTie.
+Theorem C01_reverse_step_is_code : forall d p k st c, rev_step_code d p k st c = rev_step d p k false st c.
+Proof. exact rev_step_tie. Qed.
+Print Assumptions C01_reverse_step_is_code.
+Theorem C01_best_access_is_code : forall p k st, best_access_sk G.gen_rev_best_time G.gen_rev_best_ok p k st = best_access p k st.
+Proof. exact best_access_tie. Qed.
+Print Assumptions C01_best_access_is_code.
